@@ -261,6 +261,146 @@ theorem nofont_utf8 (nfc : List Nat → List Nat) (hnfc : ∀ l, AllScalar l →
 and what it returns now -/
 example : toValidUTF8 [0xC3, 0x28, 0xFF] = [0xFFFD, 0x28, 0xFFFD] ∧ toValidUTF8 [0xC3, 0xA9] = [0xE9] := by decide
 
+
+/-! ## 5b. composition: named encodings through `DecodeString`, string level
+
+The six `*_ref` theorems are per byte of a table. Lifted through `(*standardEncoding).DecodeString`
+(zero entries skipped, `string(rune)` replacement), `GetEncoding`'s dispatch and
+`Font.DecodeString`'s priority: a font without ToUnicode whose `/Encoding` is one of the six
+names decodes every string of codes the reference defines (not starting with a byte-order
+mark) to one character per code, each a value the independent reference allows, NFC last. -/
+
+/-- `s` has one element per element of `data`, related position by position -/
+def Pointwise (R : Nat → Nat → Prop) : List Nat → List Nat → Prop
+  | [], [] => True
+  | a :: as, b :: bs => R a b ∧ Pointwise R as bs
+  | _, _ => False
+
+/-- the values the reference allows at byte value `b` -/
+def allowedAt (ref : Array (List Nat)) (b : Nat) : List Nat := (ref[b]?).getD []
+
+/-- no reference allows the value 0 (which the tables use for "unmapped") -/
+theorem refs_nonzero :
+    ∀ ref ∈ [winAnsiRef, macRomanRef, pdfDocRef, standardRef, symbolRef, zapfRef], ∀ l ∈ ref.toList, 0 ∉ l := by
+  decide +kernel
+
+theorem allScalarOrZero_get (t : Array Nat) (h : allScalarOrZero t.toList = true) (b v : Nat) (hv : t[b]? = some v) :
+    v = 0 ∨ IsScalar v := by
+  unfold allScalarOrZero at h
+  rw [List.all_eq_true] at h
+  have hmem : v ∈ t.toList := by
+    have : t.toList[b]? = some v := by simpa using hv
+    exact List.mem_of_getElem? this
+  have := h v hmem
+  simp only [decide_eq_true_eq] at this
+  by_cases h0 : v = 0
+  · exact Or.inl h0
+  · exact Or.inr this
+
+/-- `DecodeString` of a table that agrees with its reference: one allowed character per defined code -/
+theorem encoding_string_ref (t : Array Nat) (ref : Array (List Nat)) (hok : TableOK t ref)
+    (hsc : allScalarOrZero t.toList = true) (hnz : ∀ l ∈ ref.toList, 0 ∉ l)
+    (data : List Nat) (hd : ∀ b ∈ data, b < 256 ∧ allowedAt ref b ≠ []) :
+    Pointwise (fun b v => v ∈ allowedAt ref b) data (Encoding.decodeString t data) := by
+  induction data with
+  | nil => exact True.intro
+  | cons b rest ih =>
+    obtain ⟨hb, hne⟩ := hd b (by simp)
+    have hdef : refDefined ref ⟨b, hb⟩ := by
+      unfold allowedAt at hne
+      cases hr : ref[b]? with
+      | none => rw [hr] at hne; simp at hne
+      | some allowed => exact ⟨allowed, hr, by rw [hr] at hne; simpa using hne⟩
+    obtain ⟨v, hv, hin⟩ := hok ⟨b, hb⟩ hdef
+    have hin' : v ∈ allowedAt ref b := hin
+    have hv0 : v ≠ 0 := by
+      intro h0
+      subst h0
+      unfold allowedAt at hin'
+      cases hr : ref[b]? with
+      | none => rw [hr] at hin'; simp at hin'
+      | some allowed =>
+        rw [hr] at hin'
+        have hmem : allowed ∈ ref.toList := by
+          have : ref.toList[b]? = some allowed := by simpa using hr
+          exact List.mem_of_getElem? this
+        exact hnz allowed hmem (by simpa using hin')
+    have hsv : IsScalar v := by
+      rcases allScalarOrZero_get t hsc b v hv with h | h
+      · exact absurd h hv0
+      · exact h
+    have hstep : Encoding.decodeString t (b :: rest) = v :: Encoding.decodeString t rest := by
+      unfold Encoding.decodeString
+      simp only [List.filterMap_cons]
+      have hv' : t[b]? = some v := hv
+      simp only [hv', hv0, ne_eq, not_false_eq_true, if_true, toRune_scalar v hsv]
+    rw [hstep]
+    exact ⟨hin', ih (fun x hx => hd x (by simp [hx]))⟩
+
+/-- the six names with the table each selects and its reference -/
+def namedRefs : List (String × Array Nat × Array (List Nat)) :=
+  [("WinAnsiEncoding", winAnsiTable, winAnsiRef), ("MacRomanEncoding", macRomanTable, macRomanRef),
+   ("PDFDocEncoding", pdfDocTable, pdfDocRef), ("StandardEncoding", standardEncodingTableData, standardRef),
+   ("SymbolEncoding", symbolEncodingTable, symbolRef), ("ZapfDingbatsEncoding", zapfDingbatsEncodingTable, zapfRef)]
+
+theorem getEncoding_table (name : String) (tbl : Array Nat)
+    (h : ((getEncoding (nameBytes name)).map fun e => (e.name, e.table.toList)) = some (name, tbl.toList)) :
+    ∃ e, getEncoding (nameBytes name) = some e ∧ e.table = tbl := by
+  cases hg : getEncoding (nameBytes name) with
+  | none => rw [hg] at h; simp at h
+  | some e =>
+    rw [hg] at h
+    simp only [Option.map_some, Option.some.injEq, Prod.mk.injEq] at h
+    exact ⟨e, rfl, Array.toList_inj.mp h.2⟩
+
+/-- **named encodings end to end**: `Font{Encoding: name}.DecodeString(data)` for each of the
+six names, every string of reference-defined codes without a byte-order mark -/
+theorem font_named_encoding_ref (nfc : List Nat → List Nat) (name : String) (tbl : Array Nat) (ref : Array (List Nat))
+    (hmem : (name, tbl, ref) ∈ namedRefs) (data : List Nat) (hnb : NoBOM data)
+    (hd : ∀ b ∈ data, b < 256 ∧ allowedAt ref b ≠ []) :
+    ∃ s, FontDecode.decodeString nfc ⟨none, nameBytes name⟩ data = some (nfc s) ∧
+      Pointwise (fun b v => v ∈ allowedAt ref b) data s := by
+  have hdisp := getencoding_dispatch
+  have hsc := tables_scalar
+  have hnz := refs_nonzero
+  have key : ∀ (tbl : Array Nat) (ref : Array (List Nat)),
+      ((getEncoding (nameBytes name)).map fun e => (e.name, e.table.toList)) = some (name, tbl.toList) →
+      nameBytes name ≠ [] → TableOK tbl ref → allScalarOrZero tbl.toList = true → (∀ l ∈ ref.toList, 0 ∉ l) →
+      (∀ b ∈ data, b < 256 ∧ allowedAt ref b ≠ []) →
+      ∃ s, FontDecode.decodeString nfc ⟨none, nameBytes name⟩ data = some (nfc s) ∧
+        Pointwise (fun b v => v ∈ allowedAt ref b) data s := by
+    intro tbl ref hget hne hok hsc hnz hd
+    obtain ⟨e, he, het⟩ := getEncoding_table name tbl hget
+    refine ⟨Encoding.decodeString tbl data, ?_, encoding_string_ref tbl ref hok hsc hnz data hd⟩
+    have := (decode_priority nfc ⟨none, nameBytes name⟩ data).2.2.2.1 rfl hnb hne
+    rw [this, he]
+    simp [het]
+  unfold namedRefs at hmem
+  simp only [List.mem_cons, Prod.mk.injEq, List.mem_nil_iff, or_false] at hmem
+  rcases hmem with ⟨rfl, rfl, rfl⟩ | ⟨rfl, rfl, rfl⟩ | ⟨rfl, rfl, rfl⟩ | ⟨rfl, rfl, rfl⟩ | ⟨rfl, rfl, rfl⟩ | ⟨rfl, rfl, rfl⟩
+  · exact key _ _ hdisp.1 (by decide +kernel) winansi_ref hsc.1 (hnz _ (by simp)) hd
+  · exact key _ _ hdisp.2.1 (by decide +kernel) macroman_ref hsc.2.1 (hnz _ (by simp)) hd
+  · exact key _ _ hdisp.2.2.1 (by decide +kernel) pdfdoc_ref hsc.2.2.1 (hnz _ (by simp)) hd
+  · exact key _ _ hdisp.2.2.2.1 (by decide +kernel) standard_ref hsc.2.2.2.1 (hnz _ (by simp)) hd
+  · exact key _ _ hdisp.2.2.2.2.1 (by decide +kernel) symbol_ref hsc.2.2.2.2.1 (hnz _ (by simp)) hd
+  · exact key _ _ hdisp.2.2.2.2.2.1 (by decide +kernel) zapf_ref hsc.2.2.2.2.2 (hnz _ (by simp)) hd
+
+/-- the hypotheses are satisfiable: `A`, the Euro sign's code and `é` in WinAnsiEncoding -/
+example : NoBOM [0x41, 0x80, 0xE9] ∧ (∀ b ∈ [0x41, 0x80, 0xE9], b < 256 ∧ allowedAt winAnsiRef b ≠ []) ∧
+    Encoding.decodeString winAnsiTable [0x41, 0x80, 0xE9] = [0x41, 0x20AC, 0xE9] := by
+  refine ⟨⟨fun r h => by simp at h, fun r h => by simp at h⟩, by decide +kernel, by decide +kernel⟩
+
+/-- **UTF-16 with a byte-order mark end to end**: a font without ToUnicode, whatever its
+encoding name, decodes `FE FF` + UTF-16BE (resp. `FF FE` + UTF-16LE) of any list of Unicode
+scalar values — supplementary planes included — to that list, NFC last -/
+theorem font_utf16_bom (nfc : List Nat → List Nat) (enc : List Nat) (s : List Nat) (hs : ∀ c ∈ s, IsScalar c) :
+    FontDecode.decodeString nfc ⟨none, enc⟩ (0xFE :: 0xFF :: bytesBE (encodeUnits s)) = some (nfc s) ∧
+    FontDecode.decodeString nfc ⟨none, enc⟩ (0xFF :: 0xFE :: bytesLE (encodeUnits s)) = some (nfc s) := by
+  have hp := decode_priority nfc ⟨none, enc⟩
+  refine ⟨?_, ?_⟩
+  · rw [(hp _).2.1 rfl _ rfl, utf16be_roundtrip s hs]
+  · rw [(hp _).2.2.1 rfl _ rfl, utf16le_roundtrip s hs]
+
 /-! ## 6. CMap round trip (staged)
 
 Full statement (not proved; compared on every run by the correspondence and the oracle
@@ -268,6 +408,9 @@ Full statement (not proved; compared on every run by the correspondence and the 
 formatting policy `pol` of the independent writer (bfchar lines / one line / bfrange with
 offset or array targets / arrays spanning lines / LF or CRLF),
 `lookupString (parseCMapData (render pol m)) (codes of sel) = texts of sel`.
+
+(The full statement IS now proved: `Props/C07CMap.lean`, `cmap_roundtrip`, for the whole
+program text under every policy. The theorem below is kept as the first stage.)
 
 Proved here, for all maps and all selections: the one-entry-per-line `bfchar` policy, from the
 **section text** on — the `<`…`>` scanner, both hex readers, UTF-16 decoding of targets
